@@ -68,6 +68,9 @@ theorem rank_intoSkip {c : Ctx} {pay pad : Nat} : rank (c.intoSkip pay pad) = 0 
   · exact rank_intoState
   · rfl
 
+theorem rank_le_one (s : State) : rank s ≤ 1 := by
+  cases s <;> simp [rank]
+
 theorem be16_lt (a b : UInt8) : be16 a b < 65536 := by
   have := a.toNat_lt; have := b.toNat_lt; simp [be16]; omega
 
@@ -698,5 +701,371 @@ theorem paramsDrive_eq (i : Inner) (pay pad : Nat) (data : Bytes) :
         match padPhase i' pad d with
         | .error r => r
         | .ok d' => recPhase i' d' := rfl
+
+/-- Early return of the payload phase: the record's payload is not complete yet. -/
+theorem payloadPhase_error {i : Inner} {pay pad : Nat} {data : Bytes} {r : Flow × Bytes}
+    (h : payloadPhase i pay pad data = .error r) :
+    ∃ i' n, parseStream i data false = .ok i' n ∧ InnerOK i' ∧ 0 < pay ∧ data.length < pay ∧
+      n ≤ data.length ∧ r = (.brk (data.drop n) (.params i' (pay - n) pad), []) := by
+  unfold payloadPhase at h
+  split at h
+  · rename_i hp
+    split at h
+    · rename_i hlt
+      obtain ⟨i', n, hps, hok, hn, _⟩ := parseStream_ok i data false
+      rw [hps] at h
+      simp only [] at h
+      rw [if_pos ⟨by omega, hn⟩] at h
+      cases h
+      exact ⟨i', n, hps, hok, hp, hlt, hn, rfl⟩
+    · rename_i hge
+      obtain ⟨i', n, hps, hok, hn, he⟩ := parseStream_ok i (data.take pay) true
+      rw [hps] at h
+      simp only [] at h
+      have : n = pay := by rw [he rfl, List.length_take]; omega
+      simp [this] at h
+  · cases h
+
+/-- The payload phase falls through: no payload left, or the payload is complete. -/
+theorem payloadPhase_ok {i i' : Inner} {pay pad : Nat} {data d : Bytes}
+    (h : payloadPhase i pay pad data = .ok (i', d)) :
+    (pay = 0 ∧ i' = i ∧ d = data) ∨
+      (0 < pay ∧ pay ≤ data.length ∧ d = data.drop pay ∧
+        parseStream i (data.take pay) true = .ok i' pay ∧ InnerOK i') := by
+  unfold payloadPhase at h
+  split at h
+  · rename_i hp
+    split at h
+    · rename_i hlt
+      obtain ⟨i1, n, hps, hok, hn, _⟩ := parseStream_ok i data false
+      rw [hps] at h
+      simp only [] at h
+      split at h <;> cases h
+    · rename_i hge
+      obtain ⟨i1, n, hps, hok, hn, he⟩ := parseStream_ok i (data.take pay) true
+      have : n = pay := by rw [he rfl, List.length_take]; omega
+      subst this
+      rw [hps] at h
+      simp at h
+      obtain ⟨rfl, rfl⟩ := h
+      exact Or.inr ⟨hp, by omega, rfl, hps, hok⟩
+  · cases h
+    exact Or.inl ⟨by omega, rfl, rfl⟩
+
+theorem padPhase_error {i : Inner} {pad : Nat} {data : Bytes} {r : Flow × Bytes}
+    (h : padPhase i pad data = .error r) :
+    0 < pad ∧ data.length ≤ pad ∧ r = (.brk [] (.params i 0 (pad - data.length)), []) := by
+  unfold padPhase at h
+  split at h
+  · split at h
+    · cases h; exact ⟨‹_›, ‹_›, rfl⟩
+    · cases h
+  · cases h
+
+theorem padPhase_ok {i : Inner} {pad : Nat} {data d : Bytes} (h : padPhase i pad data = .ok d) :
+    d = data.drop pad ∧ (pad = 0 ∨ pad < data.length) := by
+  unfold padPhase at h
+  split at h
+  · split at h
+    · cases h
+    · cases h; exact ⟨rfl, Or.inr (by omega)⟩
+  · cases h
+    have : pad = 0 := by omega
+    subst this; exact ⟨rfl, Or.inl rfl⟩
+
+theorem recPhase_no_panic {i : Inner} {d o : Bytes} {s : String} : recPhase i d ≠ (.panic s, o) := by
+  unfold recPhase
+  intro h
+  split at h
+  · cases h
+  · cases h
+  · cases h
+  · simp only [] at h
+    repeat' split at h
+    all_goals cases h
+
+theorem recPhase_brk {i : Inner} {d r o : Bytes} {s : State} (hi : InnerOK i)
+    (h : recPhase i d = (.brk r s, o)) :
+    r = d ∧ o = [] ∧ WFState s ∧ (s = .params i 0 0 ∧ d.length < 8 ∨ ∃ e, s = .fatal e) := by
+  unfold recPhase at h
+  split at h
+  · rename_i hs
+    cases h; exact ⟨rfl, rfl, ⟨by omega, by omega, hi⟩, Or.inl ⟨rfl, tryHead_short hs⟩⟩
+  · cases h; exact ⟨rfl, rfl, trivial, Or.inr ⟨_, rfl⟩⟩
+  · cases h
+  · simp only [] at h
+    repeat' split at h
+    all_goals cases h
+
+theorem recPhase_cont {i : Inner} {d r o : Bytes} {s : State} (hi : InnerOK i)
+    (h : recPhase i d = (.cont r s, o)) :
+    r = d.drop 8 ∧ 8 ≤ d.length ∧ WFState s := by
+  unfold recPhase at h
+  split at h
+  · cases h
+  · cases h
+  · rename_i o' st hh
+    cases h
+    obtain ⟨h8, hw, _⟩ := tryHead_unknown (c := .par i) hi hh
+    exact ⟨rfl, h8, hw⟩
+  · rename_i hd hh
+    obtain ⟨h8, hcl, hpl⟩ := tryHead_ok hh
+    simp only [] at h
+    repeat' split at h
+    all_goals cases h
+    · exact ⟨rfl, h8, wf_intoSkip (c := .dn _) trivial (by omega) hpl⟩
+    · exact ⟨rfl, h8, hcl, hpl, hi⟩
+    · exact ⟨rfl, h8, wf_intoSkip (c := .hdr) trivial hcl hpl⟩
+    · exact ⟨rfl, h8, wf_intoSkip (c := .par i) hi hcl hpl⟩
+    · exact ⟨rfl, h8, hcl, hpl, by omega, by intro r; simp, hi⟩
+    · exact ⟨rfl, h8, wf_intoSkip (c := .par i) hi hcl hpl⟩
+
+/-- Case analysis of `paramsDrive` along its three phases. -/
+theorem paramsDrive_cases (i : Inner) (pay pad : Nat) (data : Bytes) :
+    (∃ r, payloadPhase i pay pad data = .error r ∧ paramsDrive i pay pad data = r) ∨
+    (∃ i' d, payloadPhase i pay pad data = .ok (i', d) ∧
+      ((∃ r, padPhase i' pad d = .error r ∧ paramsDrive i pay pad data = r) ∨
+       (∃ d', padPhase i' pad d = .ok d' ∧ paramsDrive i pay pad data = recPhase i' d'))) := by
+  rw [paramsDrive_eq]
+  cases hp : payloadPhase i pay pad data with
+  | error r => exact Or.inl ⟨r, rfl, rfl⟩
+  | ok x =>
+    obtain ⟨i', d⟩ := x
+    refine Or.inr ⟨i', d, rfl, ?_⟩
+    cases hq : padPhase i' pad d with
+    | error r => exact Or.inl ⟨r, rfl, by simp only [hq]⟩
+    | ok d' => exact Or.inr ⟨d', rfl, by simp only [hq]⟩
+
+theorem paramsDrive_no_panic {i : Inner} {pay pad : Nat} {d o : Bytes} {s : String} :
+    paramsDrive i pay pad d ≠ (.panic s, o) := by
+  intro h
+  rcases paramsDrive_cases i pay pad d with ⟨r, hp, he⟩ | ⟨i', d1, hp, ⟨r, hq, he⟩ | ⟨d', hq, he⟩⟩
+  · obtain ⟨_, _, _, _, _, _, _, hr⟩ := payloadPhase_error hp
+    rw [he, hr] at h; cases h
+  · obtain ⟨_, _, hr⟩ := padPhase_error hq
+    rw [he, hr] at h; cases h
+  · rw [he] at h; exact recPhase_no_panic h
+
+theorem payloadPhase_ok_inner {i i' : Inner} {pay pad : Nat} {data d : Bytes} (hi : InnerOK i)
+    (h : payloadPhase i pay pad data = .ok (i', d)) : InnerOK i' ∧ d = data.drop pay := by
+  rcases payloadPhase_ok h with ⟨rfl, rfl, rfl⟩ | ⟨_, _, rfl, _, hok⟩
+  · exact ⟨hi, rfl⟩
+  · exact ⟨hok, rfl⟩
+
+theorem paramsDrive_brk {i : Inner} {pay pad : Nat} {d r o : Bytes} {s : State}
+    (hw : WFState (.params i pay pad)) (h : paramsDrive i pay pad d = (.brk r s, o)) :
+    WFState s ∧ IsSuffix r d ∧ o = [] := by
+  obtain ⟨h1, h2, hi⟩ := hw
+  rcases paramsDrive_cases i pay pad d with ⟨x, hp, he⟩ | ⟨i', d1, hp, ⟨x, hq, he⟩ | ⟨d', hq, he⟩⟩
+  · obtain ⟨i', n, _, hok, _, _, _, hr⟩ := payloadPhase_error hp
+    rw [he, hr] at h; cases h
+    exact ⟨⟨by omega, h2, hok⟩, IsSuffix.drop _ _, rfl⟩
+  · obtain ⟨hok, _⟩ := payloadPhase_ok_inner hi hp
+    obtain ⟨_, _, hr⟩ := padPhase_error hq
+    rw [he, hr] at h; cases h
+    exact ⟨⟨by omega, by omega, hok⟩, IsSuffix.nil _, rfl⟩
+  · obtain ⟨hok, rfl⟩ := payloadPhase_ok_inner hi hp
+    obtain ⟨rfl, _⟩ := padPhase_ok hq
+    rw [he] at h
+    obtain ⟨rfl, rfl, hws, _⟩ := recPhase_brk hok h
+    exact ⟨hws, (IsSuffix.drop _ _).drop_of _, rfl⟩
+
+theorem paramsDrive_cont {i : Inner} {pay pad : Nat} {d r o : Bytes} {s : State}
+    (hw : WFState (.params i pay pad)) (h : paramsDrive i pay pad d = (.cont r s, o)) :
+    WFState s ∧ IsSuffix r d ∧ r.length + 8 ≤ d.length := by
+  obtain ⟨h1, h2, hi⟩ := hw
+  rcases paramsDrive_cases i pay pad d with ⟨x, hp, he⟩ | ⟨i', d1, hp, ⟨x, hq, he⟩ | ⟨d', hq, he⟩⟩
+  · obtain ⟨i', n, _, hok, _, _, _, hr⟩ := payloadPhase_error hp
+    rw [he, hr] at h; cases h
+  · obtain ⟨_, _, hr⟩ := padPhase_error hq
+    rw [he, hr] at h; cases h
+  · obtain ⟨hok, rfl⟩ := payloadPhase_ok_inner hi hp
+    obtain ⟨rfl, _⟩ := padPhase_ok hq
+    rw [he] at h
+    obtain ⟨rfl, h8, hws⟩ := recPhase_cont hok h
+    refine ⟨hws, ((IsSuffix.drop _ _).drop_of _).drop_of _, ?_⟩
+    simp only [List.length_drop] at h8 ⊢; omega
+
+/-! ## One iteration of the loop -/
+
+/-- The three-way statement about one `step`, as a predicate on its result. -/
+def StepGood (st : State) (data : Bytes) : Flow × Bytes → Prop
+  | (.panic _, _) => False
+  | (.brk r s, _) => WFState s ∧ IsSuffix r data
+  | (.cont r s, _) => WFState s ∧ IsSuffix r data ∧
+      (r.length < data.length ∨ (r.length = data.length ∧ rank s < rank st))
+
+theorem step_no_panic {st : State} {d o : Bytes} {mc : Nat} {s : String} (hw : WFState st) :
+    step st d mc ≠ (.panic s, o) := by
+  intro h
+  unfold step at h
+  split at h
+  · cases h
+  · cases h
+  · exact headerDrive_no_panic h
+  · simp only [Prod.mk.injEq] at h; exact skipDrive_no_panic h.1
+  · exact hw.2.2.2.1 _ rfl
+  · exact valuesDrive_no_panic h
+  · exact paramsDrive_no_panic h
+
+theorem step_brk {st s : State} {d r o : Bytes} {mc : Nat} (hw : WFState st)
+    (h : step st d mc = (.brk r s, o)) : WFState s ∧ IsSuffix r d := by
+  unfold step at h
+  split at h
+  · cases h; exact ⟨hw, IsSuffix.refl _⟩
+  · cases h; exact ⟨hw, IsSuffix.refl _⟩
+  · obtain ⟨a, b, _⟩ := headerDrive_brk h; exact ⟨a, b⟩
+  · simp only [Prod.mk.injEq] at h
+    obtain ⟨a, rfl⟩ := skipDrive_brk hw h.1; exact ⟨a, IsSuffix.nil _⟩
+  · cases h
+  · exact valuesDrive_brk hw h
+  · obtain ⟨a, b, _⟩ := paramsDrive_brk hw h; exact ⟨a, b⟩
+
+theorem step_cont {st s : State} {d r o : Bytes} {mc : Nat} (hw : WFState st)
+    (h : step st d mc = (.cont r s, o)) :
+    WFState s ∧ IsSuffix r d ∧
+      (r.length < d.length ∨ (r.length = d.length ∧ rank s < rank st)) := by
+  unfold step at h
+  split at h
+  · cases h
+  · cases h
+  · obtain ⟨a, b, c⟩ := headerDrive_cont h; exact ⟨a, b, Or.inl c⟩
+  · simp only [Prod.mk.injEq] at h
+    obtain ⟨a, b, c, _⟩ := skipDrive_cont hw h.1; exact ⟨a, b, Or.inl c⟩
+  · cases h
+  · obtain ⟨a, b, c, _⟩ := valuesDrive_cont hw h
+    refine ⟨a, b, ?_⟩
+    have := b.length_le
+    by_cases hl : r.length < d.length
+    · exact Or.inl hl
+    · exact Or.inr ⟨by omega, by rw [c]; simp [rank]⟩
+  · obtain ⟨a, b, c⟩ := paramsDrive_cont hw h; exact ⟨a, b, Or.inl (by omega)⟩
+
+/-- `step_ok` in match form. -/
+theorem step_ok {st : State} (d : Bytes) (mc : Nat) (hw : WFState st) :
+    StepGood st d (step st d mc) := by
+  cases h : step st d mc with
+  | mk f o =>
+    cases f with
+    | panic s => exact step_no_panic hw h
+    | brk r s => exact step_brk hw h
+    | cont r s => exact step_cont hw h
+
+theorem step_final {st : State} (d : Bytes) (mc : Nat) (hf : st.isFinal = true) :
+    step st d mc = (.brk d st, []) := by
+  cases st <;> simp [State.isFinal] at hf <;> rfl
+
+theorem not_final_of_step_cont {st s : State} {d r o : Bytes} {mc : Nat}
+    (h : step st d mc = (.cont r s, o)) : st.isFinal = false := by
+  cases hf : st.isFinal with
+  | false => rfl
+  | true => rw [step_final d mc hf] at h; cases h
+
+theorem not_final_of_step_panic {st : State} {d o : Bytes} {mc : Nat} {x : String}
+    (h : step st d mc = (.panic x, o)) : st.isFinal = false := by
+  cases hf : st.isFinal with
+  | false => rfl
+  | true => rw [step_final d mc hf] at h; cases h
+
+/-! ## Unfolding `run` (the `State::drive` loop) -/
+
+theorem run_final {st : State} (d : Bytes) (mc : Nat) (hf : st.isFinal = true) :
+    run st d mc = { rem := d, st := st, out := [], panic := none } := by
+  rw [run]; simp [hf]
+
+theorem run_brk {st s : State} {d r o : Bytes} {mc : Nat} (hf : st.isFinal = false)
+    (h : step st d mc = (.brk r s, o)) :
+    run st d mc = { rem := r, st := s, out := o, panic := none } := by
+  rw [run]; simp [hf, h]
+
+theorem run_panic {st : State} {d o : Bytes} {mc : Nat} {x : String}
+    (h : step st d mc = (.panic x, o)) :
+    run st d mc = { rem := d, st := .fatal .paniced, out := o, panic := some x } := by
+  rw [run]; simp [not_final_of_step_panic h, h]
+
+theorem run_cont_empty {st s : State} {d o : Bytes} {mc : Nat}
+    (h : step st d mc = (.cont [] s, o)) :
+    run st d mc = { rem := [], st := s, out := o, panic := none } := by
+  rw [run]; simp [not_final_of_step_cont h, h]
+
+/-- One more iteration, given the progress guard explicitly. -/
+theorem run_cont_of_guard {st s : State} {d r o : Bytes} {mc : Nat}
+    (h : step st d mc = (.cont r s, o)) (hr : r ≠ [])
+    (hg : r.length < d.length ∨ (r.length = d.length ∧ rank s < rank st)) :
+    run st d mc = { run s r mc with out := o ++ (run s r mc).out } := by
+  rw [run]; simp [not_final_of_step_cont h, h, hr, hg]
+
+/-- One more iteration from a well-formed state: the progress guard holds. -/
+theorem run_cont {st s : State} {d r o : Bytes} {mc : Nat} (hw : WFState st)
+    (h : step st d mc = (.cont r s, o)) (hr : r ≠ []) :
+    run st d mc = { run s r mc with out := o ++ (run s r mc).out } :=
+  run_cont_of_guard h hr (step_cont hw h).2.2
+
+/-- From a well-formed state the loop never hits a panic site, the progress guard never fails,
+it ends in a well-formed state, and what is left is a suffix of the data. -/
+theorem run_ok {st : State} (d : Bytes) (mc : Nat) (hw : WFState st) :
+    (run st d mc).panic = none ∧ WFState (run st d mc).st ∧ IsSuffix (run st d mc).rem d := by
+  induction hm : 2 * d.length + rank st using Nat.strongRecOn generalizing st d with
+  | _ m ih =>
+    subst hm
+    cases hf : st.isFinal with
+    | true => rw [run_final d mc hf]; exact ⟨rfl, hw, IsSuffix.refl _⟩
+    | false =>
+      cases h : step st d mc with
+      | mk f o =>
+        cases f with
+        | panic s => exact (step_no_panic hw h).elim
+        | brk r s =>
+          obtain ⟨hws, hsuf⟩ := step_brk hw h
+          rw [run_brk hf h]; exact ⟨rfl, hws, hsuf⟩
+        | cont r s =>
+          obtain ⟨hws, hsuf, hg⟩ := step_cont hw h
+          by_cases hr : r = []
+          · subst hr; rw [run_cont_empty h]; exact ⟨rfl, hws, hsuf⟩
+          · rw [run_cont hw h hr]
+            have hrank := rank_le_one s
+            have hrank' := rank_le_one st
+            obtain ⟨a, b, c⟩ := ih (2 * r.length + rank s) (by omega) r hws rfl
+            exact ⟨a, b, c.trans hsuf⟩
+
+/-! ## `request::Parser` -/
+
+/-- Bookkeeping invariant of the parser object: `input_len ≤ input.len()`, a well-formed state,
+and the minimum buffer size. -/
+def PInv (p : Parser) : Prop := p.input.length ≤ p.cap ∧ WFState p.state ∧ 24 ≤ p.cap
+
+theorem alignedBufsize_ge (b : Nat) : 24 ≤ alignedBufsize b := by
+  unfold alignedBufsize; split
+  · exact Nat.le_refl _
+  · split <;> omega
+
+theorem new_inv (b mc : Nat) : PInv (Parser.new b mc) :=
+  ⟨Nat.zero_le _, trivial, alignedBufsize_ge b⟩
+
+theorem fromParser_inv {cap : Nat} {input : Bytes} (mc : Nat) (h1 : input.length ≤ cap)
+    (h2 : 24 ≤ cap) : PInv (Parser.fromParser cap input mc) := ⟨h1, trivial, h2⟩
+
+/-- Under the invariant, every call within the offered buffer space takes the normal path:
+`parse` is `run` on the concatenated input followed by the stuck-on-input check. -/
+theorem parse_eq {p : Parser} {new : Bytes} (hp : PInv p) (hn : new.length ≤ p.free) :
+    p.parse new =
+      (if (!(run p.state (p.input ++ new) p.maxConns).st.isFinal &&
+            (run p.state (p.input ++ new) p.maxConns).rem.length == p.cap) = true then
+        ({ p with input := (run p.state (p.input ++ new) p.maxConns).rem,
+                  state := .fatal .stuckOnInput },
+          some { done := true, output := (run p.state (p.input ++ new) p.maxConns).out })
+      else
+        ({ p with input := (run p.state (p.input ++ new) p.maxConns).rem,
+                  state := (run p.state (p.input ++ new) p.maxConns).st },
+          some { done := (run p.state (p.input ++ new) p.maxConns).st.isFinal,
+                 output := (run p.state (p.input ++ new) p.maxConns).out })) := by
+  obtain ⟨h1, hw, h24⟩ := hp
+  obtain ⟨hpanic, _, hsuf⟩ := run_ok (p.input ++ new) p.maxConns hw
+  have hle := hsuf.length_le
+  unfold Parser.free at hn
+  unfold Parser.parse
+  rw [if_neg (by omega)]
+  simp only [hpanic]
+  rw [if_neg (by omega)]
 
 end Fcgi.Req
